@@ -58,6 +58,12 @@ theorem consistent_load (s : FuncSt) (u fr : W64) : Consistent (s.load u fr) := 
     rw [redirectTo_some _ _ _ _ rfl]
     exact ⟨thunkTarget_redirect _ u, getThunkAddr_redirect _ u, length_redirect _ u, fun h => by simp at h⟩
 
+/-- the invariant does not mention the bookkeeping flags -/
+theorem consistent_flags (s : FuncSt) (hs : Consistent s) (b c : Bool) :
+    Consistent { s with interpData := b, pending := c } := by
+  intro a ha
+  exact hs a ha
+
 theorem consistent_stepF (u : W64) (e : Event) (f : Nat) (s : FuncSt) (hs : Consistent s) :
     Consistent (stepF u e f s) := by
   cases e with
@@ -65,7 +71,9 @@ theorem consistent_stepF (u : W64) (e : Event) (f : Nat) (s : FuncSt) (hs : Cons
                  · exact consistent_load s u _
                  · exact hs
   | link i p => simp only [stepF]; split
-                · intro a ha; simpa using consistent_setIface s i (p f) a (by simpa using ha)
+                · have h1 := consistent_setIface { s with interpData := false } i (p f)
+                  have h2 := consistent_flags _ h1 ({ s with interpData := false }.setIface i (p f)).interpData false
+                  exact h2
                 · exact hs
   | setIface i g p => simp only [stepF]; split
                       · exact consistent_setIface s i p
@@ -74,6 +82,7 @@ theorem consistent_stepF (u : W64) (e : Event) (f : Nat) (s : FuncSt) (hs : Cons
                      · split
                        · exact consistent_genCode s p
                        · exact consistent_genBB s p
+                       · exact consistent_flags s hs true s.pending
                        · exact hs
                      · exact hs
   | gen g p => simp only [stepF]; split
